@@ -1,7 +1,7 @@
 (* Corr/C07.v -- correspondence glue for C07: concrete stream callables (mirrored in harness/props/C07.py),
    the case type carrying inputs and the implementation's observations, and check_case. *)
 From Coq Require Import List Bool NArith ZArith.
-From MV Require Import Base.Bytes Model.HttpBody.
+From MV Require Import Base.Bytes Model.HttpBody Model.H2SendBuf.
 Import ListNotations.
 Open Scope Z_scope.
 
@@ -55,7 +55,14 @@ Definition titem_eqb (a b : titem) : bool :=
   end.
 Definition zz_eqb (a b : Z * Z) : bool := (fst a =? fst b) && (snd a =? snd b).
 
+Definition frame_eqb (a b : frame) : bool :=
+  match a, b with Frame k d e, Frame k' d' e' => N.eqb k k' && bytes_eqb d d' && Bool.eqb e e' end.
+Definition chunk_eqb (a b : chunk) : bool := bytes_eqb (fst a) (fst b) && Bool.eqb (snd a) (snd b).
+Definition sbuf_eqb (a b : N * list chunk) : bool := N.eqb (fst a) (fst b) && list_eqb chunk_eqb (snd a) (snd b).
+
 Inductive case :=
+| CH2 (sids : list N) (w0 c0 : Z) (ops : list op)
+      (out : list (list frame)) (rest : smap (list chunk)) (cw : Z)
 | CSize (s : option bytes) (impl : psz)
 | CRun (cfg : config) (kq ks : callable) (steps : list step)
        (trace : list titem) (bufs : list (Z * Z))
@@ -63,6 +70,14 @@ Inductive case :=
 
 Definition check_case (c : case) : bool :=
   match c with
+  | CH2 sids w0 c0 ops out rest cw =>
+      (* a real BufferedH2Connection (peer MAX_FRAME_SIZE 16384): frames written per operation, what is left in
+         stream_buffers (dict order), and the connection window *)
+      match run_ops ops (init_sb sids w0 c0 16384) with
+      | Some (s, fss) =>
+          list_eqb (list_eqb frame_eqb) fss out && list_eqb sbuf_eqb (bufs s) rest && (cwin s =? cw)
+      | None => false
+      end
   | CSize s impl => psz_eqb (parse_size s) impl
   | CRun cfg kq ks steps trace bufs rc sc err live crashed =>
       let '(t, b, w, cr) := wrun kstate (call kq) (call ks) cfg (winit kstate k0 k0) steps in
